@@ -155,6 +155,26 @@ PROPS["C20"] = {
     "tasks": ["FCNAgent.submit_orders_by_market", "MarketMakerAgent.get_base_price", "MarketMakerAgent.submit_orders", "ArbitrageAgent._submit_orders"],
     "not_decided": ["MarketShareFCNAgent market choice (weights = recent traded volume + 1e-10, then the FCN order on the chosen market): contract not finished; normal-margin mode of FCN"],
 }
+PROPS["C07"] = {
+    "level": "other",
+    "level_text": "a sufficient condition for reproducibility as effect/frame contracts: no function reads an ambient source of nondeterminism (reads-clauses over the AST, one obligation per function), generators are seeded from the owner's generator, json_extends returns a fresh dict and the expansion writes only such copies; determinism itself is a relation between two runs and is only replayed differentially",
+    "level_note": "meta-theorem assumed: a CPython program whose functions satisfy the reads-clauses computes a function of its inputs and the generators it is handed; CPython, numpy, scipy themselves",
+    "technique": "effect and frame contracts discharged over the AST and by VC generation (json_extends); differential double-run as bounded replay",
+    "explanation": "reads-clauses for every function of pams (ambient random/numpy/time/os/id/hash/set-iteration), seed-chain, module-level state; heap-frame clause of json_extends (fresh result) proved by VC generation; syntactic frame of the settings writes; bounded differential replay across PYTHONHASHSEED values and polluted global generators",
+    "tasks": ["effects:no-ambient-nondeterminism", "effects:settings-written-only-through-copies", "json_extends"],
+    "bounded": [{"name": "differential double-run (hash seeds 0..2 / 0..5, polluted global generators, settings unchanged)", "replayer": "determinism", "bound": "2 (quick) / 6 (thorough) configurations x 3 / 6 interpreter runs", "timeout": 1500}],
+    "not_decided": ["determinism itself (relational property): only the sufficient condition is decided"],
+}
+PROPS["C12"] = {
+    "level": "other",
+    "level_text": "partial: start value, registration, parameter setters and regeneration keep every value up to the regeneration point (loop invariant over an ASSUMED contract of the numpy-based _generate_next, pinned to its text); shock contract; the generation algebra and the zero-volatility path only by a bounded stand-in; distribution of returns not decided",
+    "level_note": COMMON_NOTE + "; numpy/scipy trusted; contract of _generate_next assumed",
+    "technique": "contracts + VC generation for the pure-Python part; assumed (pinned) contract and bounded run-time check for the numpy part",
+    "explanation": "deductive: add_market, change_volatility, change_drift, get_fundamental_price (prefix preservation, termination variant) and Market.change_fundamental_price; assumed: contract of _generate_next; bounded: that contract, zero-volatility closed form, L.Z + drift with L.L^T = diag(vol).C.diag(vol) for both key orders of a correlation pair",
+    "tasks": ["Fundamentals.add_market", "Fundamentals.change_volatility", "Fundamentals.change_drift", "Fundamentals.get_fundamental_price", "Market.change_fundamental_price"],
+    "bounded": [{"name": "_generate_next contract, zero-volatility path, covariance algebra", "replayer": "fundamentals", "bound": "150 (quick) / 3000 (thorough) seeded cases per clause: 1-4 markets, chunk 3/5/100, 1-6 operations", "timeout": 1500}],
+    "not_decided": ["that sample log-returns have mean = drift, standard deviation = volatility and the configured correlations (a statement about numpy's standard_normal)"],
+}
 PROPS["C18"]["tasks"].append("json_extends")
 PROPS["C10"]["tasks"] += SKELETON
 PROPS["C05"]["tasks"] += RUNNER_ELEMS
